@@ -33,7 +33,7 @@ type fmtMemoEntry struct {
 func isModulePath(p string) bool { return strings.HasPrefix(p, "github.com/b2broker/simplefix-go") }
 
 // packages whose init functions are executed for real
-var initReal = map[string]bool{"io": true, "bufio": true}
+var initReal = map[string]bool{"io": true, "bufio": true, "strconv": true, "unicode/utf8": true}
 
 func (in *Interp) newErr(text string) Value {
 	in.errCount++
@@ -194,6 +194,62 @@ func (in *Interp) intrinsic(fn *ssa.Function, args []Value) (Value, bool) {
 			}
 		}
 		return C(64, ^uint64(0)), true
+	case "strings.TrimSpace", "strings.TrimLeft", "strings.TrimRight", "strings.Trim":
+		// ASCII white space (for Trim*: the cutset must be concrete ASCII); forks on the bytes at both ends
+		in.stub(name)
+		str := args[0].(Str)
+		cut := " \t\n\v\f\r"
+		if name != "strings.TrimSpace" {
+			c, ok := args[1].(Str).concrete()
+			if !ok {
+				panic(engineError{name + " with symbolic cutset"})
+			}
+			cut = c
+		}
+		inCut := func(b *Term) *Term {
+			r := B(false)
+			for i := 0; i < len(cut); i++ {
+				r = Or(r, Bin("=", b, C(8, uint64(cut[i]))))
+			}
+			return r
+		}
+		lo, hi := 0, len(str.b)
+		if name != "strings.TrimRight" {
+			for lo < hi && in.ex.decide(inCut(str.b[lo])) {
+				lo++
+			}
+		}
+		if name != "strings.TrimLeft" {
+			for hi > lo && in.ex.decide(inCut(str.b[hi-1])) {
+				hi--
+			}
+		}
+		if name == "strings.TrimSpace" {
+			// non-ASCII space characters (U+0085, U+00A0, ...) are not modelled
+			for _, b := range str.b[lo:hi] {
+				if !b.isC() {
+					if in.ex.decide(Bin("bvule", C(8, 0x80), b)) {
+						panic(pathEnd{"assume-false"}) // bound: ASCII contents for TrimSpace
+					}
+				}
+			}
+		}
+		return Str{b: str.b[lo:hi:hi]}, true
+	case "strings.HasPrefix", "strings.HasSuffix":
+		in.stub(name)
+		sx, px := args[0].(Str), args[1].(Str)
+		if len(sx.b) < len(px.b) {
+			return B(false), true
+		}
+		off := 0
+		if name == "strings.HasSuffix" {
+			off = len(sx.b) - len(px.b)
+		}
+		r := B(true)
+		for i := range px.b {
+			r = And(r, Bin("=", sx.b[off+i], px.b[i]))
+		}
+		return r, true
 	case "strings.Index":
 		in.stub(name)
 		return in.indexOf(strSlice(args[0].(Str)), strSlice(args[1].(Str))), true
@@ -634,6 +690,43 @@ func (in *Interp) intrinsic(fn *ssa.Function, args []Value) (Value, bool) {
 			cur = nx
 		}
 		return B(false), true
+	case "errors.As":
+		in.stub(name)
+		tgt, ok := args[1].(Iface)
+		if !ok || tgt.t == nil {
+			panic(goPanic{"errors: target cannot be nil"})
+		}
+		pt, ok := tgt.t.Underlying().(*types.Pointer)
+		if !ok {
+			panic(goPanic{"errors: target must be a non-nil pointer"})
+		}
+		cell := tgt.v.(*Value)
+		cur := args[0]
+		for depth := 0; depth < 32; depth++ {
+			ci, ok := cur.(Iface)
+			if !ok || ci.t == nil {
+				break
+			}
+			if it, isI := pt.Elem().Underlying().(*types.Interface); isI {
+				if types.Implements(ci.t, it) {
+					*cell = ci
+					return B(true), true
+				}
+			} else if types.Identical(ci.t, pt.Elem()) {
+				*cell = copyVal(ci.v)
+				return B(true), true
+			}
+			p, ok := ci.v.(*Value)
+			if !ok {
+				break
+			}
+			nx, ok := in.wraps[p]
+			if !ok {
+				break
+			}
+			cur = nx
+		}
+		return B(false), true
 	case "errors.Unwrap":
 		in.stub(name)
 		if ci, ok := args[0].(Iface); ok {
@@ -772,7 +865,13 @@ func (in *Interp) fmtInt(v *Term, signed bool) Str {
 
 func (in *Interp) numError() Value {
 	in.errCount++
-	var cell Value = zero(numErrorPtr.(*types.Pointer).Elem())
+	st := zero(numErrorPtr.(*types.Pointer).Elem()).(Struct)
+	if len(st) == 3 { // Func, Num, Err
+		st[0] = mkStr("Atoi")
+		st[1] = mkStr("?")
+		st[2] = in.newErr("invalid syntax")
+	}
+	var cell Value = st
 	return Iface{t: numErrorPtr, v: &cell}
 }
 
